@@ -152,11 +152,13 @@ func unsetRequestHeaderValue(r *http.Request, name string) {
 	if name, ok := strings.CutSuffix(name, "*"); ok {
 		// Note that the wildcard does not work for header subfield
 		// ref: https://fiddle.fastly.dev/fiddle/288403c5
+		// Header names are case-insensitive, and an unset header is not set any more
 		for key := range r.Header {
-			if strings.HasPrefix(key, name) {
-				r.Header.Del(key)
+			if http.HasPrefixFold(key, name) {
+				delete(r.Header, key)
 			}
 		}
+		r.UnassignPrefix(name)
 		return
 	}
 
@@ -252,11 +254,13 @@ func unsetResponseHeaderValue(r *http.Response, name string) {
 	if name, ok := strings.CutSuffix(name, "*"); ok {
 		// Note that the wildcard does not work for header subfield
 		// ref: https://fiddle.fastly.dev/fiddle/288403c5
+		// Header names are case-insensitive, and an unset header is not set any more
 		for key := range r.Header {
-			if strings.HasPrefix(key, name) {
-				r.Header.Del(key)
+			if http.HasPrefixFold(key, name) {
+				delete(r.Header, key)
 			}
 		}
+		r.UnassignPrefix(name)
 		return
 	}
 
